@@ -237,14 +237,11 @@ class GraphicalModel:
             used.add(col)
             marg = self.project(proj + (col,)).datavector(flatten=False)
 
-            def foo(group):
-                idx = group.name
-                vals = synthetic_col(marg[idx], group.shape[0])
-                group[col] = vals
-                return group
-
             if len(proj) >= 1:
-                df = df.groupby(list(proj), group_keys=False).apply(foo)
+                # assign by group index (groupby.apply no longer hands the grouping columns to the function)
+                for idx, group in df.groupby(list(proj)):
+                    idx = idx if isinstance(idx, tuple) else (idx,)
+                    df.loc[group.index, col] = synthetic_col(marg[idx], group.shape[0])
             else:
                 df[col] = synthetic_col(marg, df.shape[0])
 
